@@ -25,11 +25,27 @@ class Inconclusive(BaseException):
     """path given up (too many values to split on, solver unknown)"""
 
 
+def _plain(x):
+    """detail values must cross process boundaries: symbolic members are replaced by a marker (the replay recomputes them)"""
+    if isinstance(x, dict):
+        return {str(k): _plain(v) for k, v in x.items()}
+    if isinstance(x, (list, tuple)):
+        return [_plain(v) for v in x]
+    if x is None or type(x) in (bool, int, float, str):
+        return x
+    if type(x).__name__ in ("SymInt", "SymBool", "SymReal"):
+        return "<symbolic>"
+    try:
+        return repr(x)[:200]
+    except BaseException:  # noqa
+        return "<unprintable>"
+
+
 class Counterexample(BaseException):
     def __init__(self, label, model, detail=None):
         self.label = label
         self.model = model
-        self.detail = detail
+        self.detail = _plain(detail)
 
 
 HASH_SPLIT_MAX = 64
